@@ -19,6 +19,12 @@ RULE = ("a case is (assignment, spelling): the assignment's defined metrics writ
 def observe(ver, s, reverse=False):
     L = lib()
     o = L.CLS[ver](s)
+    if reverse and ver != "4" and len(s) % 4 == 0:
+        # the twin as an application may well have got it: out of a text (nothing is judged if the extractor does not
+        # return an object built from exactly this string -- that is C13's business)
+        o2 = obs.build(L, ver, s, "text")
+        if o2 is not None:
+            o = o2
     return o, obs.record(ver, o, reverse)
 
 
